@@ -18,12 +18,21 @@ Definition nfunctions (s : shell) : Z :=
 
 Definition is_nil {A} (l : list A) : bool := match l with [] => true | _ => false end.
 
-(** pydantic field constraints (min_items=1, NonnegativeInt) and the two coefficient validators *)
-Definition shell_ok (s : shell) : bool :=
-  negb (is_nil (sh_am s)) && forallb (fun L => 0 <=? L) (sh_am s)
-  && (0 <? sh_nexp s) && negb (is_nil (sh_coef s))
-  && forallb (fun n => n =? sh_nexp s) (sh_coef s)
-  && (if 1 <? zlen (sh_am s) then zlen (sh_am s) =? zlen (sh_coef s) else true).
+(** pydantic field constraints (min_items=1, NonnegativeInt) and the two `coefficients` validators, in order.
+    A field that failed its own validation is missing from `values`, and the validators read
+    `values['exponents']` / `values['angular_momentum']` unguarded: that KeyError is not a pydantic error
+    and escapes as is. *)
+Definition am_ok (s : shell) : bool := negb (is_nil (sh_am s)) && forallb (fun L => 0 <=? L) (sh_am s).
+Definition shell_check (s : shell) : outcome unit :=
+  if is_nil (sh_coef s) || existsb (fun n => n <=? 0) (sh_coef s)
+  then Err Validation                 (* min_items=1 applies to the rows too; the validators are not run *)
+  else if negb (0 <? sh_nexp s) then Err PyKeyError                        (* values['exponents'] *)
+  else if negb (forallb (fun n => n =? sh_nexp s) (sh_coef s)) then Err Validation
+  else if negb (am_ok s) then Err PyKeyError                               (* values['angular_momentum'] *)
+  else if (1 <? zlen (sh_am s)) && negb (zlen (sh_am s) =? zlen (sh_coef s)) then Err Validation
+  else Ok tt.
+Definition shell_ok (s : shell) : bool := match shell_check s with Ok _ => true | Err _ => false end.
+Definition shell_keyerror (s : shell) : bool := match shell_check s with Err PyKeyError => true | _ => false end.
 
 Definition centers := list (string * list shell).
 
@@ -48,7 +57,8 @@ Record basis_in := { b_centers : centers; b_atom_map : list string; b_nbf : opti
     A failed center_data or atom_map validation makes `_check_nbf` hit its `except KeyError: return v`
     and the construction fails with the collected ValidationError. *)
 Definition basis_validate (b : basis_in) : outcome Z :=
-  if negb (forallb (fun kc => negb (is_nil (snd kc)) && forallb shell_ok (snd kc)) (b_centers b))
+  if existsb (fun kc => existsb shell_keyerror (snd kc)) (b_centers b) then Err PyKeyError
+  else if negb (forallb (fun kc => negb (is_nil (snd kc)) && forallb shell_ok (snd kc)) (b_centers b))
   then Err Validation
   else if negb (forallb (fun c => smem c (keys (b_centers b))) (b_atom_map b))
   then Err Validation                               (* 'atom_map' contains unknown keys *)
